@@ -5,9 +5,12 @@ use islamic_prayer_times::*;
 use serde_json::{json, Value};
 
 pub const TOL_S: i64 = 10;
-/// zone offsets are kept within this many hours of lon/15 in both calls, so that no event crosses
-/// the local-midnight window between the two calls (then the two calls report different physical events)
-pub const MAX_ZONE_OFFSET_H: f64 = 3.0;
+/// The library reports, for each civil date, the transit/rise/set that falls inside the 24 h window
+/// starting at local midnight, and derives Fajr/Isha/Asr/Imsaak from that day's Dhuhr. When a shift
+/// moves such an anchor event across the window boundary the second call reports the neighbouring
+/// day's event - a different physical event, outside what the property compares. Comparisons whose
+/// anchor lands within this margin of the boundary (or beyond it) are therefore exempt, per prayer.
+pub const WINDOW_MARGIN_S: i64 = 300;
 
 #[derive(Clone, Copy, Debug)]
 pub enum Shift {
@@ -21,7 +24,7 @@ pub fn shifted(site: Site, s: Shift) -> Option<(Site, i64)> {
         Shift::Gmt(d) => (site.lon, site.gmt + d, (d * 3600.0) as i64),
         Shift::LonGmt(dl, dg) => (site.lon + dl, site.gmt + dg, 0),
     };
-    if !(-180.0..=180.0).contains(&lon) || !(-12.0..=12.0).contains(&gmt) || (gmt - lon / 15.0).abs() > MAX_ZONE_OFFSET_H || (site.gmt - site.lon / 15.0).abs() > MAX_ZONE_OFFSET_H {
+    if !(-180.0..=180.0).contains(&lon) || !(-12.0..=12.0).contains(&gmt) {
         return None;
     }
     Some((Site::new(site.lat, lon, site.elev, gmt), move_s))
@@ -29,11 +32,32 @@ pub fn shifted(site: Site, s: Shift) -> Option<(Site, i64)> {
 
 pub fn judge(ctx: &Ctx, l: &mut Local, p: &Params, site: Site, date: NaiveDate, r: &R, s: Shift) {
     let Some((site2, mv)) = shifted(site, s) else { return };
-    let r2 = prayer_times_dt(p, site2.loc(), date, None);
+    let r2 = pt(p, site2.loc(), date, None);
     l.evals += 1;
     l.nontrivial += 1;
     let case = || PtCase::new(p, site, date).with_extra(json!({"shift": format!("{:?}", s), "shifted_site": site2}));
+    // anchor of each prayer: the window-placed event its value is derived from
+    let anchor = |pr: Prayer| -> Prayer {
+        use Prayer::*;
+        match pr {
+            Shurooq | Maghrib | Dhuhr => pr,
+            Fajr | Imsaak if p.intervals[&Fajr] != 0.0 => Shurooq,
+            Isha if p.intervals[&Isha] != 0.0 => Maghrib,
+            _ => Dhuhr,
+        }
+    };
+    let stays_inside = |pr: Prayer| -> bool {
+        match secs(r, anchor(pr)) {
+            Some(a) => (WINDOW_MARGIN_S..86400 - WINDOW_MARGIN_S).contains(&(a + mv)) && (WINDOW_MARGIN_S..86400 - WINDOW_MARGIN_S).contains(&a),
+            None => true,
+        }
+    };
     for pr in SEQ7 {
+        if !stays_inside(pr) {
+            l.count("comparisons_exempt_anchor_event_crosses_the_local_midnight_window", 1);
+            continue;
+        }
+        l.count("comparisons_judged", 1);
         match (secs(r, pr), secs(&r2, pr)) {
             (Some(a), Some(b)) => {
                 let d = cyc(b - a - mv);
@@ -55,16 +79,16 @@ pub fn judge(ctx: &Ctx, l: &mut Local, p: &Params, site: Site, date: NaiveDate, 
 
 pub fn explore(ctx: &Ctx) {
     let quick = ctx.tier == Tier::Quick;
-    ctx.rule("every (site, date, method, shift) is one pair of calls; all pairs are distinct; non-trivial = the shifted site is in range and both zone offsets are within 3 h of lon/15, so all seven entries were compared");
+    ctx.rule("every (site, date, method, shift) is one pair of calls; all pairs are distinct; non-trivial = the shifted site is in range, so the pair was run and its entries compared (per-prayer exemptions counted in counters)");
     ctx.assume("|d| <= 1 h: the tolerance is the Sun's own motion during the shifted interval and scales with d");
-    ctx.assume("zone offsets within 3 h of lon/15 in both calls: beyond that an event can cross the local-midnight window between the two calls, and the two calls then report different physical events (yesterday's/tomorrow's) - outside what the property compares");
+    ctx.assume("a prayer is compared only if its anchor event (its own transit/rise/set, or the Dhuhr / Shurooq / Maghrib it is derived from) stays at least 300 s inside the 24 h local-midnight window in both calls; otherwise the two calls report different physical events (yesterday's/tomorrow's) - outside what the property compares");
     ctx.assume("differences of truncated whole seconds: |observed| <= 10 is implied by a true difference <= 10 s");
     let lats: Vec<f64> = if quick { vec![0.0, 30.0, -30.0, 45.0, -45.0] } else { vec![0.0, 15.0, -15.0, 30.0, -30.0, 45.0, -45.0] };
     let lon_step = if quick { 60.0 } else { 15.0 };
     let mut sites = vec![];
     let mut lon = -180.0;
     while lon <= 180.0 {
-        for dz in if quick { vec![0.0, 2.0] } else { vec![0.0, 2.0, -2.0] } {
+        for dz in if quick { vec![0.0, 2.0, -7.0, 11.0] } else { vec![0.0, 2.0, -2.0, 6.0, -7.0, 11.0, -11.5] } {
             let g = ((lon / 15.0f64).round() + dz).clamp(-12.0, 12.0);
             for &lat in &lats {
                 let s = Site::new(lat, lon, 0.0, g);
@@ -77,7 +101,7 @@ pub fn explore(ctx: &Ctx) {
     }
     let seam = d_seam(1600, 2399);
     let all = d_all();
-    ctx.alphabet("sites", json!({"count": sites.len(), "lats": lats, "lon_step": lon_step, "base_gmt": if quick { "round(lon/15) + {0, +2} clipped to [-12, 12]" } else { "round(lon/15) + {0, +2, -2} clipped to [-12, 12]" }}));
+    ctx.alphabet("sites", json!({"count": sites.len(), "lats": lats, "lon_step": lon_step, "base_gmt": if quick { "round(lon/15) + {0, +2, -7, +11} clipped to [-12, 12]" } else { "round(lon/15) + {0, +2, -2, +6, -7, +11, -11.5} clipped to [-12, 12]" }}));
     ctx.alphabet("shifts", json!(SHIFTS.iter().map(|s| format!("{:?}", s)).collect::<Vec<_>>()));
     // part 1: seam dates x all sites x one method (quick) / all dates (thorough)
     let p1 = params_conv(Method::Mwl);
@@ -85,7 +109,7 @@ pub fn explore(ctx: &Ctx) {
     ctx.alphabet("part1", json!({"method": "Mwl", "dates": d1.len(), "sites": sites.len()}));
     par_jobs(ctx, &sites, |site, l| {
         for &d in d1.iter() {
-            let r = prayer_times_dt(&p1, site.loc(), d, None);
+            let r = pt(&p1, site.loc(), d, None);
             l.evals += 1;
             for s in SHIFTS {
                 judge(ctx, l, &p1, *site, d, &r, s);
@@ -102,7 +126,7 @@ pub fn explore(ctx: &Ctx) {
     ctx.alphabet("part2", json!({"methods": 9, "sites": jobs.len() / 9, "dates": seam.len()}));
     par_jobs(ctx, &jobs, |(site, p), l| {
         for &d in &seam {
-            let r = prayer_times_dt(p, site.loc(), d, None);
+            let r = pt(p, site.loc(), d, None);
             l.evals += 1;
             for s in SHIFTS {
                 judge(ctx, l, p, *site, d, &r, s);
@@ -121,7 +145,7 @@ pub fn explore(ctx: &Ctx) {
         }
         par_jobs(ctx, &jobs3, |(site, ds), l| {
             for &d in ds {
-                let r = prayer_times_dt(&p1, site.loc(), d, None);
+                let r = pt(&p1, site.loc(), d, None);
                 l.evals += 1;
                 for s in SHIFTS {
                     judge(ctx, l, &p1, *site, d, &r, s);
